@@ -34,12 +34,15 @@ static int process_data(xfrm_stream_t *stream, const void *in,
 	xfrm_zstd_t *zstd = (xfrm_zstd_t *)stream;
 	ZSTD_outBuffer out_desc;
 	ZSTD_inBuffer in_desc;
-	size_t ret;
+	size_t ret = 1;
+	bool finish;
 
 	if (flush_mode < 0 || flush_mode >= XFRM_STREAM_FLUSH_COUNT)
 		flush_mode = XFRM_STREAM_FLUSH_NONE;
 
-	while (in_size > 0 && out_size > 0) {
+	finish = zstd->compress && flush_mode == XFRM_STREAM_FLUSH_FULL;
+
+	while ((in_size > 0 || (finish && ret != 0)) && out_size > 0) {
 		memset(&in_desc, 0, sizeof(in_desc));
 		in_desc.src = in;
 		in_desc.size = in_size;
@@ -70,11 +73,11 @@ static int process_data(xfrm_stream_t *stream, const void *in,
 	}
 
 	if (flush_mode != XFRM_STREAM_FLUSH_NONE) {
-		if (in_size == 0)
+		if (in_size == 0 && (!finish || ret == 0))
 			return XFRM_STREAM_END;
 	}
 
-	if (in_size > 0 && out_size == 0)
+	if ((in_size > 0 || finish) && out_size == 0)
 		return XFRM_STREAM_BUFFER_FULL;
 
 	return XFRM_STREAM_OK;
